@@ -328,7 +328,7 @@ def run_job(job, io):
                 pickle.dump({'reg_log': log2, 'items': blob_items}, f)
             io.progress({'site': 'restart:%s' % history, 'tape': tape.values})
             env = dict(os.environ)
-            r = subprocess.run([B.PYTHON, '-m', 'optsim.loader', blob_path], capture_output=True, text=True, env=env, timeout=60)
+            r = subprocess.run([B.PYTHON, '-m', 'optsim.loader', blob_path], capture_output=True, text=True, env=env, timeout=300)
         finally:
             shutil.rmtree(rundir, ignore_errors=True)
         if r.returncode != 0:
